@@ -420,8 +420,13 @@ func walkCallResults(c *Ctx, call *ssa.Call, idx int, d int, walk func(*Ctx, ssa
 			name = fullName(cal)
 			// error wrapping: %w operands of fmt.Errorf
 			if name == "fmt.Errorf" {
-				seen["call:fmt.Errorf"] = true
-				for _, w := range wrappedOperands(c, call) {
+				// an error built with %w keeps its cause visible to errors.Is: report the cause(s);
+				// without %w it is a freshly constructed error that hides whatever it was built from.
+				ws := wrappedOperands(c, call)
+				if len(ws) == 0 {
+					seen["call:fmt.Errorf"] = true
+				}
+				for _, w := range ws {
 					for _, o := range origins(c, w, d+1) {
 						seen["wraps:"+o] = true
 					}
